@@ -17,6 +17,9 @@ type GlobCache struct {
 	// h is the first element in l.
 	h int
 
+	// mu guards l, h and n on the slow path.
+	mu sync.Mutex
+
 	// n is the number of elements in l.
 	n int
 }
@@ -41,6 +44,19 @@ func (c *GlobCache) Get(pattern string) (glob.Glob, error) {
 	glbCompiled, err := glob.Compile(pattern)
 	if err != nil {
 		return nil, err
+	}
+
+	c.mu.Lock()
+	defer c.mu.Unlock()
+
+	// another goroutine may have added the pattern in the meantime
+	if glb, ok := c.m.Load(pattern); ok {
+		return glb.(glob.Glob), nil
+	}
+
+	// a cache without capacity does not store anything
+	if len(c.l) == 0 {
+		return glbCompiled, nil
 	}
 
 	// if the LRU buffer is not full just append
